@@ -1,7 +1,10 @@
 pub mod c06;
+pub mod c07;
 pub mod c10;
+pub mod c13;
 pub mod c19;
 pub mod c20;
+pub mod table;
 
 use crate::common::*;
 
@@ -13,12 +16,31 @@ pub fn run(id: &str, tier: Tier) -> Option<Report> {
             finalize_counts(&mut rep);
             rep
         }
+        "C07" => {
+            let mut rep = Report::new("C07", "model_checking", tier);
+            c07::run(tier, &mut rep);
+            finalize_counts(&mut rep);
+            rep
+        }
+        "C08" => {
+            let mut rep = Report::new("C08", "model_checking", tier);
+            table::run_c08(tier, &mut rep);
+            finalize_counts(&mut rep);
+            rep
+        }
+        "C09" => {
+            let mut rep = Report::new("C09", "model_checking", tier);
+            table::run_c09(tier, &mut rep);
+            finalize_counts(&mut rep);
+            rep
+        }
         "C10" => {
             let mut rep = Report::new("C10", "model_checking", tier);
             c10::run(tier, &mut rep);
             finalize_counts(&mut rep);
             rep
         }
+        "C13" => c13::run(tier),
         "C19" => {
             let mut rep = Report::new("C19", "model_checking", tier);
             c19::run(tier, &mut rep);
@@ -33,7 +55,13 @@ pub fn run(id: &str, tier: Tier) -> Option<Report> {
 pub fn replay(id: &str, v: &serde_json::Value) -> i32 {
     match id {
         "C06" => c06::replay(v),
+        "C07" => c07::replay(v),
+        "C08" => {
+            if v["part"] == "bucket" { table::replay_bucket(v) } else { table::replay_table(v, true, false) }
+        }
+        "C09" => table::replay_table(v, false, true),
         "C10" => c10::replay(v),
+        "C13" => c13::replay(v),
         "C19" => c19::replay(v),
         "C20" => c20::replay(v),
         _ => {
